@@ -98,7 +98,8 @@ def gen_plan(seed: int, tier: str, enumerate_first: bool = True) -> dict:
         profile["resp_delay"] = [r.choice([0.0, 0.2, 0.5]), r.choice([0.0, 5.0, 29.0, 29.9]), r.choice([10.0, 30.0, 30.1, 31.0, 45.0])]
         profile["resp_stall_p"] = r.choice([0.0, 0.0, 0.1, 0.3])
         profile["truncate_p"] = r.choice([0.0, 0.0, 0.1, 0.3])
-        profile["slow_drain"] = r.choice([0.0, 0.0, 0.3])
+        profile["slow_drain"] = r.choice([0.0, 0.0, 0.3, 0.7])
+        profile["slow_drain_max"] = r.choice([5.0, 40.0])
     horizon = r.choice([2.0, 10.0, 40.0, 90.0])
     nops = r.randint(3, 22)
     ops = []
